@@ -126,6 +126,71 @@ pub fn c08_native<G: AffineRepr + 'static>(seed: u64, maxlen: usize) -> Checks {
                 }
             }
         }
+        // the right number of rounds, one named point slot replaced by the identity / by another point: the
+        // slots the verifier never tests against the identity (second-phase commitments) included
+        for slot in 0..11usize {
+            for ident in [true, false] {
+                let mut p2 = pts;
+                p2[slot] = if ident { G::zero() } else { G::Group::rand(&mut rng).into_affine() };
+                let hostile = R1CSProof::verif_from_parts(p2, scs, ipp.clone());
+                total += 2;
+                rewind_for_verifier(&shr);
+                let r1 = catch(|| {
+                    let mut vt = new_verifier_transcript(&shape);
+                    build_verifier(&shape, &shr, &mut vt).verify(&hostile, &pc, &bp).is_ok()
+                });
+                rewind_for_verifier(&shr);
+                let r2 = catch(|| {
+                    let mut vt = new_verifier_transcript(&shape);
+                    let v = build_verifier(&shape, &shr, &mut vt);
+                    let mut wr = rand_chacha::ChaChaRng::seed_from_u64(seed);
+                    batch_verify(&mut wr, vec![(v, &hostile)], &pc, &bp).is_ok()
+                });
+                for (which, r) in [("verify", &r1), ("batch_verify", &r2)] {
+                    if let Err(e) = r {
+                        bad += 1;
+                        if first.is_empty() {
+                            first = format!("{} panicked for {} gates with point slot {} replaced by {}: {}", which, g, slot, if ident { "the identity" } else { "another point" }, e);
+                        }
+                    }
+                }
+            }
+        }
+        // generator sets of every capacity around the padded size: an error or a verdict, never a panic
+        for cap in 0..=(2 * pad + 1) {
+            let small = BulletproofGens::<G>::new(cap, 1);
+            total += 2;
+            rewind_for_verifier(&shr);
+            let r1 = catch(|| {
+                let mut vt = new_verifier_transcript(&shape);
+                build_verifier(&shape, &shr, &mut vt).verify(&proof, &pc, &small).is_ok()
+            });
+            rewind_for_verifier(&shr);
+            let r2 = catch(|| {
+                let mut vt = new_verifier_transcript(&shape);
+                let v = build_verifier(&shape, &shr, &mut vt);
+                let mut wr = rand_chacha::ChaChaRng::seed_from_u64(seed);
+                batch_verify(&mut wr, vec![(v, &proof)], &pc, &small).is_ok()
+            });
+            for (which, r) in [("verify", &r1), ("batch_verify", &r2)] {
+                match r {
+                    Err(e) => {
+                        bad += 1;
+                        if first.is_empty() {
+                            first = format!("{} panicked for {} gates with generator capacity {}: {}", which, g, cap, e);
+                        }
+                    }
+                    Ok(ok) => {
+                        if *ok != (cap >= pad) {
+                            bad += 1;
+                            if first.is_empty() {
+                                first = format!("{} with generator capacity {} for padded size {}: accepted = {}", which, cap, pad, ok);
+                            }
+                        }
+                    }
+                }
+            }
+        }
         // list lengths around the guard of the shift `1 << |L|`
         if g <= 1 {
             for big in [31usize, 32, 33, 63, 64, 65] {
